@@ -187,6 +187,8 @@ func runProperty(prop, tier, only string, seed, workers int, verbose, noReplay b
 			h.MaxPaths = s.MaxPaths
 			h.GrowSlack = s.GrowSlack
 			h.NoMerge = s.NoMerge
+			h.PoolNondet = s.PoolNondet
+			h.MaxPerSite = 6
 			if tier == "thorough" {
 				h.TimeoutMs = 60000
 			}
@@ -227,9 +229,22 @@ func runProperty(prop, tier, only string, seed, workers int, verbose, noReplay b
 	ovJSON := writeOverlayJSON(ovFiles, work)
 	for i, r := range results {
 		s := resSpecs[i]
+		siteDone := map[string]bool{}  // site already confirmed (or known)
+		siteTried := map[string]int{}  // witnesses replayed so far
+		siteTotal := map[string]int{}  // witnesses available
 		for _, v := range r.Violations {
-			path := saveReplay(prop, s, v)
+			siteTotal[v.Msg+"@"+v.Pos]++
+		}
+		for vi, v := range r.Violations {
+			site := v.Msg + "@" + v.Pos
+			if siteDone[site] {
+				continue
+			}
+			path := saveReplayN(prop, s, v, siteTried[site])
+			siteTried[site]++
+			_ = vi
 			if v.Known != "" {
+				siteDone[site] = true
 				line := fmt.Sprintf("KNOWN-FINDING: property=%s %s: %s [%s @%s] replay=%s", prop, v.Known, knownWhat(known, v.Known), v.Msg, v.Pos, path)
 				fmt.Println(line)
 				knownHit = append(knownHit, v.Known)
@@ -239,7 +254,11 @@ func runProperty(prop, tier, only string, seed, workers int, verbose, noReplay b
 			if !noReplay && !s.NoReplay {
 				confirmed, out = replayNative(s, path, ovJSON, verbose)
 			}
+			if !confirmed && siteTried[site] < siteTotal[site] {
+				continue // another witness of the same assertion follows: try that one
+			}
 			if confirmed {
+				siteDone[site] = true
 				nViol++
 				fmt.Printf("VIOLATION property=%s replay=%s\n", prop, path)
 				fmt.Printf("  %s: %s @%s\n  model: %s\n", v.Kind, v.Msg, v.Pos, modelStr(v.Model))
@@ -311,6 +330,15 @@ type ReplayFile struct {
 	Stack    []string          `json:"stack,omitempty"`
 }
 
+func saveReplayN(prop string, s HarnessSpec, v gosym.Violation, k int) string {
+	if k > 0 {
+		v.Msg = v.Msg + fmt.Sprintf(" [witness %d]", k+1)
+		p := saveReplay(prop, s, v)
+		return p
+	}
+	return saveReplay(prop, s, v)
+}
+
 func saveReplay(prop string, s HarnessSpec, v gosym.Violation) string {
 	dir := filepath.Join(verifDir, "replays")
 	os.MkdirAll(dir, 0o755)
@@ -354,6 +382,10 @@ func replayNative(s HarnessSpec, replayPath, ovJSON string, verbose bool) (bool,
 	pkgDir := strings.TrimPrefix(s.Pkg, "github.com/bytedance/sonic")
 	pkgDir = strings.TrimPrefix(pkgDir, "/")
 	pkgName := s.PkgName
+	zzPath := mod + "/internal/zzverif"
+	if strings.HasPrefix(s.Pkg, mod+"/loader") {
+		zzPath = mod + "/loader/internal/zzverif" // the loader is a module of its own
+	}
 	runner := fmt.Sprintf(`//go:build verif
 
 package %s
@@ -363,7 +395,7 @@ import (
 	"os"
 	"testing"
 
-	zz "github.com/bytedance/sonic/internal/zzverif"
+	zz "%s"
 )
 
 func TestVerifReplay(t *testing.T) {
@@ -390,7 +422,7 @@ func TestVerifReplay(t *testing.T) {
 	}
 	fmt.Fprintln(os.Stdout, "VERIF-REPLAY-RESULT OK")
 }
-`, pkgName, s.Func)
+`, pkgName, zzPath, s.Func)
 	rp := filepath.Join(work, "replay_runner_"+pkgName+"_test.go")
 	os.WriteFile(rp, []byte(runner), 0o644)
 	o.Replace[filepath.Join(repoDir, pkgDir, "zz_verif_replay_test.go")] = rp
